@@ -1,12 +1,14 @@
 /-
 C13 — the caller's IDENTITY STATE and the identity the new image runs as.
 
-do_spawn's child, as written (tiny-std/src/process.rs): after the dup2s and chdir
-    if let Some(uid) = uid { setuid(uid)?; }          -- FIRST the uid
-    if let Some(gid) = gid { setgid(gid)?; }          -- THEN the gid
+do_spawn's child, as written (tiny-std/src/process.rs, after the repair 925c7e5): after the dup2s and chdir
+    if let Some(gid) = gid { setgid(gid)?; }          -- FIRST the gid (the privilege is still there)
+    if let Some(uid) = uid { setuid(uid)?; }          -- THEN the uid
     if let Some(pgroup) = pgroup { setpgid(0, pgroup)?; }
     closures; execve
-No setgroups call anywhere: the supplementary groups are never touched.
+Before 925c7e5 the uid step came first (`Legacy.idSteps`): a root caller's `.uid(u).gid(g)` gave the privilege away before
+the gid step — Err(EPERM), or Ok with the real gid unchanged.
+No setgroups call anywhere: the supplementary groups are never touched (Command has no groups API; a documented fact).
 
 Kernel rules used (Linux, credentials(7), setuid(2), setgid(2), setpgid(2), execve(2)); an ASSUMPTION, itself run
 against the kernel by the correspondence:
@@ -92,8 +94,21 @@ def optStep {α : Type} (st : CStep) (o : Option Nat) (f : Nat → Except Nat α
     | .ok a => .ok a
     | .error e => .error (st, e)
 
-/-- the identity steps of do_spawn's child IN THE CODE'S ORDER, then the exec; an error names the failing step -/
+/-- the identity steps of do_spawn's child IN THE CODE'S ORDER (gid, uid, pgroup), then the exec; an error names the
+    failing step -/
 def idSteps (p : PCtx) (c : Cred) (q : IdReq) : Except (CStep × Nat) ChildId :=
+  match optStep .setgid q.gid (setgid c) c with
+  | .error x => .error x
+  | .ok c1 =>
+    match optStep .setuid q.uid (setuid c1) c1 with
+    | .error x => .error x
+    | .ok c2 =>
+      match optStep .setpgid q.pgroup (setpgid p) p.callerPgid with
+      | .error x => .error x
+      | .ok pg => .ok ⟨execCred c2, pg⟩
+
+/-- the code before 925c7e5: uid first, then gid -/
+def Legacy.idSteps (p : PCtx) (c : Cred) (q : IdReq) : Except (CStep × Nat) ChildId :=
   match optStep .setuid q.uid (setuid c) c with
   | .error x => .error x
   | .ok c1 =>
@@ -127,17 +142,5 @@ def idStepsSkipGid (p : PCtx) (c : Cred) (q : IdReq) : Except (CStep × Nat) Chi
   idSteps p c { q with gid := match q.gid with
     | some g => if c.gid.r = g then none else some g
     | none => none }
-
-/-- the order std uses: gid first, then uid (the gid step still has the privilege) -/
-def idStepsGidFirst (p : PCtx) (c : Cred) (q : IdReq) : Except (CStep × Nat) ChildId :=
-  match optStep .setgid q.gid (setgid c) c with
-  | .error x => .error x
-  | .ok c1 =>
-    match optStep .setuid q.uid (setuid c1) c1 with
-    | .error x => .error x
-    | .ok c2 =>
-      match optStep .setpgid q.pgroup (setpgid p) p.callerPgid with
-      | .error x => .error x
-      | .ok pg => .ok ⟨execCred c2, pg⟩
 
 end TinyVerif.Spawn
